@@ -170,6 +170,26 @@ func runJSONRow(rep *Report, row jRow, seed int64, held *[]jHeld, hmu *sync.Mute
 	defer cancel()
 	// ---- Write: exactly one text message carrying a JSON-equivalent document ----
 	if row.Fault == "none" && row.Target == "any" {
+		// WSJson!JsonWrite on a closed connection / with a context that is done: the call fails, writes nothing, and nothing of
+		// its value may survive it -- the Write that follows (any connection) still sends exactly its own value
+		if k := rng.Intn(3); k > 0 {
+			if dc, draw, derr := ws.NewConn(client, "off", 0); derr == nil {
+				lost := map[string]interface{}{"lost-value-of-a-failed-write": seed}
+				dctx, dcancel := context.WithCancel(context.Background())
+				if k == 1 {
+					dc.CloseNow()
+				} else {
+					dcancel()
+				}
+				// (with a context that is already done the write may still go through: nothing says it must not)
+				if werr := wsjson.Write(dctx, dc, lost); werr == nil && k == 1 {
+					rep.miss("wsjson-write-on-closed-connection-succeeded", row, "")
+				}
+				dcancel()
+				dc.CloseNow()
+				draw.Close()
+			}
+		}
 		if err := wsjson.Write(ctx, c, v); err != nil {
 			rep.miss("wsjson-write-failed", row, err.Error())
 			return
